@@ -869,6 +869,22 @@ class IArr:
     def __le__(self, o):
         return self._cmp(o, lambda a, b: a <= b)
 
+    def __eq__(self, o):
+        if isinstance(o, IArr) or is_reallike(o) or isinstance(o, (QScal, CScal)):
+            r = self.zip(_lift_operand(o), lambda a, b: scal_eq(a, b), quat=False, cplx=False)
+            r.boolean = True
+            return r
+        return NotImplemented
+
+    def __ne__(self, o):
+        if isinstance(o, IArr) or is_reallike(o) or isinstance(o, (QScal, CScal)):
+            r = self.zip(_lift_operand(o), lambda a, b: sym.snot(scal_eq(a, b)), quat=False, cplx=False)
+            r.boolean = True
+            return r
+        return NotImplemented
+
+    __hash__ = object.__hash__
+
     def count_true(self):
         """np.sum of a boolean array: the number of true cells (library axiom).  For symbolic shapes the
         count is a fresh integer recorded with the array so that contracts can relate it to the predicate."""
